@@ -74,7 +74,7 @@ def c03(tier, seed):
 
 def c04(tier, seed):
     w = n(tier, 200, 3000)
-    runs = [dict(cfg=c, traces=w, preds=C04_PREDS) for c in ("p11", "prst", "pnat", "plife0", "plifeD0", "plifelite", "pclose", "plifeK")]
+    runs = [dict(cfg=c, traces=w, preds=C04_PREDS) for c in ("p11", "prst", "pnat", "plife0", "plifeD0", "plifelite", "pclose", "plifeK", "plife0c", "plifeD0c")]
     runs[1]["scheds"] = ["fc04_failed_then_connected"]
     runs.append(dict(cfg="plife21", traces=n(tier, 100, 1500), preds=C04_PREDS, scheds=["c04_other_remote_keeps_talking"]))
     plan = {"runs": runs, "mc": [("plifemc", ["SelWhileConnected"], n(tier, {"MaxTicks": 2, "Steps": [2], "MaxTime": 6}, {"MaxTicks": 3, "Steps": [3], "MaxTime": 9}),
